@@ -251,12 +251,18 @@ func (g *Gen) pickLegal(s *fSlot) int {
 	ls := s.legalLens()
 	if s.LenSize > 0 && s.Guard.Kind != "oneOf" && g.Intn(3) == 0 {
 		lo, hi := s.bounds()
-		if hi > 300 && g.Intn(4) != 0 {
+		if hi > lo+300 && g.Intn(4) != 0 {
 			hi = lo + 300
 		}
 		return lo + g.Intn(hi-lo+1)
 	}
-	return ls[g.Intn(len(ls))]
+	l := ls[g.Intn(len(ls))]
+	if l > 2000 && g.Intn(24) != 0 {
+		// huge legal lengths are exercised, but rarely: they dominate run time without adding branches
+		lo, _ := s.bounds()
+		l = lo + g.Intn(64)
+	}
+	return l
 }
 
 type famInfo struct {
